@@ -28,6 +28,9 @@ func ReplayFile(path string) int {
 	s := NewSim(hist.Property, hist.Seed, hist.Index, gen, w, opts, Rng(hist.Seed, "replay", hist.Index), mons...)
 	for i := range hist.Blocks {
 		req, metas := hist.Blocks[i].Req()
+		if hist.Blocks[i].Restart {
+			s.Restart()
+		}
 		r := s.RunBlock(req, metas, nil)
 		if r == nil || s.Dead || s.Stopped {
 			break
